@@ -55,7 +55,8 @@ def handleRun (req : List String) (obs : List String) : String :=
         (if r.crash.isSome || i.total == m.total then [] else ["total"]) ++
         -- with several workers the numbering of operations (hence which operation an injected fault hits)
         -- depends on the interleaving: the final tree is then judged by the property checkers only
-        (if r.threads > 1 && !r.faults.isEmpty then [] else
+        -- a partial write is a fault the model applies in full (nothing stored): the tree is judged by the checkers
+        (if (r.threads > 1 && !r.faults.isEmpty) || !r.partialPaths.isEmpty then [] else
           (if i.dirs == m.dirs then [] else ["dirs"]) ++
           (if i.files == m.files then [] else ["files"])) ++
         (if out.resolutionOk then [] else ["resolution-not-admissible"])
